@@ -29,6 +29,8 @@ type c16cfg struct {
 	// with respect to some other stage, so what the others have written when the run is cancelled depends
 	// on the schedule. Only the exit status of such a run is compared.
 	racy map[string]bool
+	// importDir: the configuration also imports the directory "frags", which holds one fragment per format
+	importDir bool
 }
 
 func strOrList(r *h.Rand, items ...string) interface{} {
@@ -257,6 +259,10 @@ func genC16(r *h.Rand) c16cfg {
 	top := gen.OM{}
 	if r.Chance(40) {
 		top.Set("variables", gen.OM{{K: "GV", V: weakScalar(r)}})
+		// rendered by the first task (numbers of every size, booleans, strings)
+		t0 := tasks[0].V.(gen.OM)
+		t0.Set("after", strOrList(r, tok("G:t0:{{.GV}}")))
+		tasks[0].V = t0
 	}
 	if r.Chance(30) {
 		top.Set("output", []string{"raw", "prefixed"}[r.Intn(2)])
@@ -305,6 +311,13 @@ func genC16(r *h.Rand) c16cfg {
 		cfg.importSub = r.Bool()
 		cfg.tasks = append(cfg.tasks, "imported-task")
 		top.Set("import", []interface{}{"IMPORTFILE"})
+	}
+	if r.Chance(30) {
+		cfg.importDir = true
+		cfg.tasks = append(cfg.tasks, "frag-task")
+		if cfg.imported == nil {
+			top.Set("import", []interface{}{"IMPORTDIR"})
+		}
 	}
 	cfg.tree = top
 	return cfg
@@ -505,13 +518,27 @@ func c16(c *h.Ctx) {
 			h.WriteFile(d+"/vars.env", "FROMFILE=1\nE1=fromfile\nWHICHENV=next-to-root\n")
 			h.WriteFile(d+"/impdir/vars.env", "WHICHENV=next-to-imported-file\n")
 			tree := cloneTree(cfg.tree).(gen.OM)
+			var imports []interface{}
 			if cfg.imported != nil {
 				imp := "imp" + ext
 				if cfg.importSub {
 					imp = "impdir/imp" + ext
 				}
-				tree.Set("import", []interface{}{imp})
+				imports = append(imports, imp)
 				h.WriteFile(d+"/"+imp, mk(ext, cfg.imported))
+			}
+			if cfg.importDir {
+				// a directory import reads the *.yaml files of the directory whatever the format of the importing file
+				imports = append(imports, "frags")
+				frag := func(name string) gen.OM {
+					return gen.OM{{K: "tasks", V: gen.OM{{K: name, V: gen.OM{{K: "command", V: []interface{}{"printf \"T:" + name + "\\n\" >> \"$TRACE\""}}}}}}}
+				}
+				h.WriteFile(d+"/frags/extra.yaml", gen.YAML(frag("frag-task")))
+				h.WriteFile(d+"/frags/other.json", gen.JSON(frag("frag-json-task")))
+				h.WriteFile(d+"/frags/other.toml", gen.TOML(frag("frag-toml-task"), false))
+			}
+			if len(imports) > 0 {
+				tree.Set("import", imports)
 			}
 			files[ext] = mk(ext, tree)
 			h.WriteFile(d+"/cfg"+ext, files[ext])
@@ -535,7 +562,7 @@ func c16(c *h.Ctx) {
 		// the same three serialisations fetched over HTTP (readURL picks the format from the content type or
 		// the extension, YAML otherwise); only for configurations without imports (relative imports of a URL are
 		// outside the statement)
-		if urlBase != "" && cfg.imported == nil && i%c.N(3, 1) == 0 {
+		if urlBase != "" && cfg.imported == nil && !cfg.importDir && i%c.N(3, 1) == 0 {
 			d := real + "/yaml"
 			variants := []struct{ name, path, ctype, body string }{
 				{"url-json-by-content-type", fmt.Sprintf("/%d/config", i), "application/json; charset=utf-8", mk(".json", cfg.tree)},
